@@ -66,6 +66,11 @@ type runInfo struct {
 func runTasks(n int, s *SchedSpec, fn func(id int64)) runInfo {
 	ends := make([]taskEnd, n+1)
 	var wg sync.WaitGroup
+	sim.AbandonHook = func(id int64, why int64) {
+		// the task is parked for good by the simulator (see zzsimrt.stop): it never returns
+		ends[id].Aborted = why
+		wg.Done()
+	}
 	for i := 1; i <= n; i++ {
 		wg.Add(1)
 		go func(id int64) {
